@@ -4,6 +4,7 @@ R13.1 every PRV type registered on an output is declared in the matching PCF
 R13.2 label coverage: constant values written to labelled channels have labels
 R13.3 time is monotone and the header is rewritten from the final time
 R13.4 rows: bounds, duplicates, all named, count printed = count declared
+R13.5 list traversals in the output-producing code follow the list's own link (every element visited)
 """
 from ovsa import absint, effects, modelfx, models
 from ovsa.absint import INT, NULL, PTR, TOP
@@ -155,6 +156,38 @@ def run(ctx):
     aff_cpu_labelled = any(ev[0] == "call" and ev[1] == "pcf_add_value" and ev[2][1] == INT(1)
                            for ev in ex.event_log)
 
+    # every CPU a thread can be bound to, the loom's virtual CPU included, gets its affinity label
+    added = []
+
+    def s_addval(ex_, st, args, f, e, added=added):
+        added.append((args[0], args[1]))
+        return [(PTR("PCFVALUE"), {})]
+    sums2 = {"thread_connect": lambda ex_, st, a, f, e: [(INT(0), {})], "cpu_connect": lambda ex_, st, a, f, e: [(INT(0), {})],
+             "prf_add": lambda ex_, st, a, f, e: [(INT(0), {})], "pcf_add_value": s_addval,
+             "thread_create_pcf_types": lambda ex_, st, a, f, e: [(INT(0), {})],
+             "cpu_create_pcf_types": lambda ex_, st, a, f, e: [(INT(0), {})],
+             "thread_get_affinity_pcf_type": lambda ex_, st, a, f, e: [(PTR("AFFTYPE"), {})],
+             "recorder_find_pvt": lambda ex_, st, a, f, e: [(PTR("PVT"), {})],
+             "recorder_add_pvt": lambda ex_, st, a, f, e: [(PTR("PVT"), {})],
+             "pvt_get_pcf": lambda ex_, st, a, f, e: [(PTR("PCF"), {})], "pvt_get_prf": lambda ex_, st, a, f, e: [(PTR("PRF"), {})],
+             "snprintf": lambda ex_, st, a, f, e: [(INT(5), {})], "__builtin___snprintf_chk": lambda ex_, st, a, f, e: [(INT(5), {})]}
+    ex2 = absint.Explorer(prog, effects=eff, summaries=sums2, loop_bound=6, max_depth=3,
+                          inline=lambda n, d: n == "cpu_add_to_pcf_type",
+                          on_unknown_call=lambda cal, args, f, e: None)
+    store2 = {("SYS", F("system", "threads")): NULL, ("SYS", F("system", "ncpus")): INT(3),
+              ("SYS", F("system", "nthreads")): INT(0), ("SYS", F("system", "cpus")): PTR("C1"),
+              ("C1", F("cpu", "next")): PTR("C2"), ("C2", F("cpu", "next")): PTR("C3"), ("C3", F("cpu", "next")): NULL}
+    for k_, (nm_, virt_) in enumerate((("C1", 0), ("C2", 1), ("C3", 0))):
+        store2[(nm_, F("cpu", "gindex"))] = INT(k_)
+        store2[(nm_, F("cpu", "is_virtual"))] = INT(virt_)
+        store2[(nm_, F("cpu", "is_init"))] = INT(1)
+    outs2 = [o for o in ex2.run(sc, [PTR("SYS"), PTR("BAY"), PTR("REC")], store2) if o.kind == "ret" and o.ret == INT(0)]
+    vals2 = sorted({v[1] for t, v in added if t == PTR("AFFTYPE") and v[0] == "int"})
+    ctx.check(bool(outs2) and vals2 == [1, 2, 3], "R13.2", "cpu-affinity:every-cpu-labelled", sc.loc(),
+              "with CPUs of global index 0, 1 (a loom's virtual CPU) and 2, system_connect labels the affinity "
+              "values %s; a thread's affinity timeline shows gindex+1 of its CPU, virtual or not, so 1, 2 and 3 "
+              "all need a label" % vals2)
+
     # ---- models: create -> connect -> finish -----------------------------------------
     per_model_events = {}
     for m in ms:
@@ -271,6 +304,16 @@ def run(ctx):
                   "thread state %s (%d) is shown in the thread-state timeline but has no label" % (name, v))
     ctx.check(aff_cpu_labelled, "R13.2", "cpu-affinity:gindex+1-labelled", sc.loc(),
               "system_connect no longer labels each CPU (gindex+1) in the thread affinity type")
+
+    # ---- R13.5 --------------------------------------------------------------------------------------
+    ctx.rule("R13.5", "the code that declares types, labels and rows walks each list (threads, processes, CPUs, looms, "
+             "mark types, PCF types ...) through the link that list is built with, so that every element is "
+             "visited: task-type labels of every process, rows of every CPU (frozen table spec/listlinks.json)")
+    from rules import listlinks
+    listlinks.check(ctx, "R13.5", lambda file, name: file.startswith("src/emu/") and (
+        file.endswith("/setup.c") or file.endswith("/breakdown.c") or file.startswith("src/emu/pv/") or
+        file in ("src/emu/system.c", "src/emu/recorder.c", "src/emu/ovni/mark.c", "src/emu/model_cpu.c",
+                 "src/emu/model_thread.c", "src/emu/cpu.c", "src/emu/thread.c")), minimum=40)
 
     # ---- R13.3 --------------------------------------------------------------------------------------
     writers = eff.writers_of_field("prv", "time")
